@@ -203,6 +203,13 @@ func Check(c *Case, h *Hist) []Finding {
 		if len(other) > 0 {
 			add("C08", "returned error contains entries that are neither a job's error nor a context error: %q", other)
 		}
+		// several jobs may return one shared error instance: one entry per failed job
+		wantEntries := map[int]int{}
+		for _, j := range ranFailed {
+			if jobs[j].Beh != BGoexit {
+				wantEntries[h.Errs[j].j]++
+			}
+		}
 		bareCtx := len(entries) == 1 && ctxEntries == 1 && anyCtxTrouble
 		if !bareCtx {
 			wantGoexit := 0
@@ -211,8 +218,8 @@ func Check(c *Case, h *Hist) []Finding {
 					wantGoexit++
 					continue
 				}
-				if jobEntries[j] != 1 {
-					add("C08", "job %d ran and failed but its error appears %d times in the returned error", j, jobEntries[j])
+				if own := h.Errs[j].j; jobEntries[own] != wantEntries[own] {
+					add("C08", "job %d ran and failed but its error value appears %d times in the returned error (%d jobs that ran and failed returned that value)", j, jobEntries[own], wantEntries[own])
 				}
 			}
 			if goexitEntries != wantGoexit {
@@ -220,11 +227,10 @@ func Check(c *Case, h *Hist) []Finding {
 			}
 		}
 		for j, n := range jobEntries {
-			if !(started(j) && Fails(jobs[j].Beh)) {
-				add("C08", "returned error contains the error of job %d (%d times) which did not run and fail", j, n)
-			}
-			if n > 1 {
-				add("C08", "returned error contains the error of job %d %d times", j, n)
+			if wantEntries[j] == 0 {
+				add("C08", "returned error contains the error value of job %d (%d times) which no job that ran and failed returned", j, n)
+			} else if n > wantEntries[j] {
+				add("C08", "returned error contains the error value of job %d %d times, but only %d jobs that ran and failed returned it", j, n, wantEntries[j])
 			}
 		}
 		if ctxEntries > 0 && !anyCtxTrouble {
